@@ -68,6 +68,7 @@ def run(ctx):
     ctx.n = len(ids) + len(uu) + len(bad_ids) + len(bad_uu)
     ctx.distinct = set(ids) | set(uu) | set(bad_ids) | set(bad_uu)
     ac.judge(ctx, progs, "c16")
+    ac.judge(ctx, progs[::3], "c16chk", profile="checked")
     return vlib.finish(ctx, rule="EISA ids: every character position over its full alphabet (two backgrounds), letter triples, seeded "
                        "random ids; UUIDs: every nibble position x 16 digits x both letter cases, seeded random strings; malformed: "
                        "wrong length, displaced/replaced hyphens, a non-hex character at every position; predicate: bytes = integer "
